@@ -53,7 +53,7 @@ class Sulfur(material.Fluid):
         self.setMassFrac("S32", 0.9493)
         self.setMassFrac("S33", 0.0076)
         self.setMassFrac("S34", 0.0429)
-        self.setMassFrac("S36", 0.002)
+        self.setMassFrac("S36", 0.0002)
 
     def pseudoDensity(self, Tk=None, Tc=None):
         """Density of Liquid Sulfur.
